@@ -14,15 +14,21 @@ MANIFEST = dict(
     technique='Lean 4 proof by composition of existing theorems + four-way differential run of the real transports against each other, the scripted conversation and the compiled model pipelines',
     design='5/C15',
 )
-GEN = ["UrlRules", "Versions"]
+GEN = []
 THEOREMS = [
     "c15_stdio_transcript", "c15_httpJson_transcript", "c15_httpSse_transcript", "c15_sse_transcript",
     "c15_transcript", "c15_carrier_agnostic", "c15_expressible_everywhere",
     "c15_real_codec_stdio", "c15_real_codec_stdio_line", "c15_real_codec_http", "c15_real_codec_sse",
     "c15_real_transcript", "c15_helpers_agree",
-    "c15_client_trace_shape", "c15_client_init_once", "c15_client_lazy_init", "c15_client_initialized_stable", "c15_client_agnostic",
-    "c15_url_heuristics", "c15_detect_sound", "c15_detect_probes", "c15_detect_guard",
-    "c15_fallback_decision", "c15_try_sse_decision",
+]
+# Supplementary (Props/C15Supp.lean; never a verdict about C15): the MCPClient layer, the transport-selection
+# logic over the tables re-read from the source, the transport factory, several instances in one process
+SUPP_GEN = ["UrlRules", "Versions"]
+SUPP_THEOREMS = [
+    "c15_client_trace_shape", "c15_client_init_once", "c15_client_lazy_init", "c15_client_initialized_stable",
+    "c15_client_rejected_args", "c15_client_agnostic",
+    "c15_url_heuristics", "c15_detect_sound", "c15_detect_probes", "c15_detect_guard", "c15_fallback_decision", "c15_try_sse_decision",
+    "c15_instances_independent", "c15_stdio_instances",
 ]
 RULE = (
     "conversations of 1..4 sequential exchanges: client call = every discovered typed helper / send_initialize / "
@@ -42,7 +48,7 @@ TRUSTED = [
 ]
 ASSUMPTIONS = [
     "a result is a JSON object (every MCP result is one); a non-object result is delivered by stdio (parse_message falls back to the response class) and rejected by the HTTP and SSE transports (JSONRPCMessage.model_validate) - outside the quantifier",
-    "conversations are strictly sequential, one outstanding request at a time (concurrent callers: open known finding of C18)",
+    "conversations are strictly sequential, one outstanding request at a time (concurrent callers: open known finding of C18); a caller that mutates a params object it handed to a call that gave up (the request may still be queued in a transport that sends serially) is outside: the carriers serialise at different moments",
     "HTTP with JSON bodies expresses only exchanges without notifications (one message per body)",
 ]
 
@@ -171,16 +177,34 @@ def features(case, obs=None):
         if st.get(key):
             f.add("style:" + key)
     f.add("tie:" + case.get("tie", "events"))
+    if case.get("debug"):
+        f.add("logging:DEBUG")
+    if case.get("twin", 1) > 1:
+        f.add(f"instances:{case['twin']}")
+    if case.get("reenter") is not None:
+        f.add("transport-reentered")
+    for t, o in (case.get("opts") or {}).items():
+        for k in o:
+            f.add(f"opt:{t}.{k}")
+    n_notifs = sum(len(x.get("notifs", [])) + len(x.get("after", [])) for x in case["xs"])
+    if len(case["xs"]) >= 26:
+        f.add("long-session" + (":>100-notifications" if n_notifs > 100 else ""))
+    for x in case["xs"]:
+        if x["call"].get("form") == "raising":
+            f.add("unsendable:" + x["call"].get("exc", "TypeError"))
+    for a, b in zip(case["xs"], case["xs"][1:]):
+        if canon(a["reply"]) == canon(b["reply"]) and ("error" in a["reply"] or "D" in a):
+            f.add("same-failure-repeated")
     for key in ("batch", "blank", "eof"):
         if (w.get("stdio") or {}).get(key):
             f.add("stdio:" + key)
-    for c in w.get("json") or []:
+    for c in ([w["json"]] if isinstance(w.get("json"), dict) else (w.get("json") or [])):
         for key in ("batch", "all"):
             if c.get(key):
                 f.add("json:" + key)
         if c.get("sess") == "":
             f.add("session-empty")
-    for b in w.get("httpsse") or []:
+    for b in ([w["httpsse"]] if isinstance(w.get("httpsse"), dict) else (w.get("httpsse") or [])):
         if b.get("trailing") or any(e.get("before") for e in b.get("evs") or []):
             f.add("httpsse:noise-events")
     for key in ("m200", "eof", "untyped"):
@@ -220,7 +244,10 @@ class Conversations(Suite):
         out = list(G.directed(ctx.sub_rng("c15", "directed"), names))
         out += G.sequences(ctx.sub_rng("c15", "sequences"), names)
         out += G.cases(ctx.sub_rng("c15", budget), n, names)
+        m = G.falsy_matrix(ctx.sub_rng("c15", "matrix"))
+        out += m if budget != "quick" else ctx.sub_rng("c15", "matrix-sample").sample(m, 40)
         out += G.limits(ctx.sub_rng("c15", "limits", budget), names, budget)
+        out += G.long_sessions(ctx.sub_rng("c15", "long", budget), names, budget)
         return out
 
     def impl(self, case):
@@ -240,6 +267,8 @@ class Conversations(Suite):
         ids = [r["id"] for r in sent]
         w = case.get("wire") or {}
         sw, jw, ew = w.get("stdio") or {}, w.get("json") or [], w.get("sse") or {}
+        if isinstance(jw, dict):
+            jw = [jw] * len(case["xs"])   # one choice for every exchange
         after = any(x.get("after") for x in xs)
         st = case.get("style") or {}
         # the model renders the conversation itself (`rpcWire`) only for plainly written messages; otherwise
@@ -290,6 +319,8 @@ class Conversations(Suite):
                                    for k, b in enumerate((obs.get("http_sse") or {}).get("bodies") or [])]
         bodies = []
         hw = w.get("httpsse") or []
+        if isinstance(hw, dict):
+            hw = [hw] * len(case["xs"])
         for k, c in enumerate([(hw[ci] if ci < len(hw) else {}) for ci in calls]):
             evs = []
             for e in (c.get("evs") or [])[: len(conv[k]["notifs"]) + 1]:
@@ -331,10 +362,13 @@ class Conversations(Suite):
     def compare(self, case, obs, m):
         if m.get("driver_failed"):
             return None
+        if self.oracle(case, obs) is not None:
+            return None  # the carriers do not carry the conversation: reported by the oracle with this very input
         if m.get("bodies_ok") is False:
             return "generated SSE body choices are not conformant in the model's sense"
+        uns = self.unsendable(case)
         for c in PAIR_ORDER:
-            o = obs.get(c)
+            o = self.masked(obs.get(c), uns)
             if o is None:
                 continue
             if m.get(c) is None:
@@ -346,7 +380,63 @@ class Conversations(Suite):
         return None
 
     # ------------------------------------------------------------------ oracle (model-free)
+    @staticmethod
+    def unsendable(case):
+        """calls whose message object cannot be serialised: {call index: (typed id, exception class)}"""
+        return {i: (G.G.idtag(G.G.idval(x["call"]["id"])), x["call"].get("exc", "TypeError"))
+                for i, x in enumerate(case.get("xs") or []) if x["call"].get("form") == "raising"}
+
+    @staticmethod
+    def masked(o, uns):
+        """what a carrier does with a message it cannot serialise is its own business (C06 / C11 / C12: stdio
+        and legacy SSE drop it, Streamable HTTP ends it with a synthesised error); C15 is about the rest of the
+        conversation, which every carrier must go on carrying: entries bearing such a call's id and that
+        call's own outcome are left out of the comparison"""
+        if not uns or o is None:
+            return o
+        ids = {canon(v[0]) for v in uns.values()}
+        v = dict(o)
+        v["transcript"] = [e for e in o["transcript"] if canon(e.get("id")) not in ids]
+        v["outcomes"] = [({"outcome": "not-compared"} if i in uns else r) for i, r in enumerate(o["outcomes"])]
+        return v
+
     def oracle(self, case, obs):
+        uns = self.unsendable(case)
+        view = {c: self.masked(o, uns) for c, o in obs.items()}
+        r = self._oracle_core(case, view)
+        if r is None:
+            r = self._oracle_twins(case, view, uns)
+        if r is not None and any(v[1] == "StrRaises" for v in uns.values()):
+            # one class, whatever form the loss takes afterwards (missing messages, shifted ids after a re-entry …)
+            pair = r[0].split("/", 1)[1] if "/" in r[0] else r[0]
+            r = (f"after-unprintable-exception/{pair}",
+                 "after a message whose serialisation raised an exception whose str() raises: " + r[1], r[2])
+        return r
+
+    def _oracle_twins(self, case, view, uns):
+        """several transport instances of one carrier alive at once, each with its own server playing the
+        same conversation: every instance must behave like the carrier (no state shared between instances)"""
+        for c in PAIR_ORDER:
+            o = view.get(c)
+            if o is None or not o.get("twins"):
+                continue
+            want = H.expected_transcript(case, o["sent"], o["sent_calls"])
+            for k, t in enumerate(o["twins"], 1):
+                t = self.masked(t, uns)
+                if t.get("crash") or t.get("deadlock"):
+                    return (f"instances-interfere/{c}-vs-{c}", f"instance {k} of {c} fails ({t.get('crash') or 'deadlock'}) while instance 0 carries the conversation", None)
+                if canon(t["transcript"]) != canon(want):
+                    i = first_diff(t["transcript"], want)
+                    return (f"instances-interfere/{c}-vs-{c}",
+                            f"{len(o['twins']) + 1} instances of {c} alive at once: the read stream of instance {k} differs from the conversation its own server "
+                            f"played at entry {i}: got {canon(t['transcript'][i:i + 1])[:300]}, sent {canon(want[i:i + 1])[:300]}", {"transcript": want})
+                if canon(t["outcomes"]) != canon(o["outcomes"]):
+                    i = first_diff(t["outcomes"], o["outcomes"])
+                    return (f"instances-interfere/{c}-vs-{c}", f"helper call {i} ends differently on instance {k} and instance 0 of {c}: "
+                            f"{canon(t['outcomes'][i:i + 1])[:200]} vs {canon(o['outcomes'][i:i + 1])[:200]}", None)
+        return None
+
+    def _oracle_core(self, case, obs):
         present = [c for c in PAIR_ORDER if obs.get(c) is not None]
         for c in present:
             if obs[c].get("harness_error"):
@@ -454,6 +544,7 @@ class Clients(Conversations):
     operation results and errors carrier against carrier and against the scripted conversation (oracle),
     and against the client model (initialize once, lazily, `set_protocol_version` with the answered version)"""
     name = "mcpclient"
+    supplementary = True   # its oracle (carrier vs carrier vs script) is the property; the comparison with the client model is not
 
     def cases(self, ctx, budget):
         n = {"quick": 260, "thorough": 6000, "search": 1500}[budget]
@@ -465,7 +556,23 @@ class Clients(Conversations):
             return None
         inits = [x.get("expect") or {"ok": "2025-06-18"} for x in case.get("inits") or []]
         calls = [({"ok": "ok"} if a.get("kind", "ok") == "ok" else {"raise": a["kind"]}) for a in case.get("answers") or []]
-        return {"m": "mcpclient", "connect": bool(case.get("connect")), "ops": [o["op"] for o in case["ops"]], "inits": inits, "calls": calls}
+        return {"m": "mcpclient", "connect": bool(case.get("connect")), "ops": [o["op"] for o in case["ops"]], "inits": inits, "calls": calls,
+                "rejected": [i for i, o in enumerate(case["ops"]) if self.rejects(o)]}
+
+    @staticmethod
+    def rejects(o):
+        """which operations' helpers refuse their arguments before writing a request (TypeError): `send_tools_call`
+        and `send_prompts_get` check `name: str` and `arguments: dict`; `MCPClient.call_tool` hands over
+        `arguments or {}` (so any falsy value is an empty object), `get_prompt` hands `arguments` over as it is
+        (None = none); `send_resources_read` does not check its uri"""
+        if o["op"] in ("call_tool", "get_prompt") and "name" in o and not isinstance(o["name"], str):
+            return True
+        a = o.get("arguments")
+        if o["op"] == "call_tool" and a and not isinstance(a, dict):
+            return True
+        if o["op"] == "get_prompt" and a is not None and not isinstance(a, dict):
+            return True
+        return False
 
     def model_obs(self, out, case):
         return {"driver_failed": True} if driver_failed(out) else out
@@ -492,7 +599,7 @@ class Clients(Conversations):
         return kinds, trace, sets
 
     def compare(self, case, obs, m):
-        if m.get("driver_failed"):
+        if m.get("driver_failed") or self.oracle(case, obs) is not None:
             return None
         want_kinds = [r["k"] for r in m["results"]]
         want_reqs = [e for e in m["trace"] if "req" in e]
@@ -561,6 +668,7 @@ class Detection(Suite):
     `try_http_with_sse_fallback`) against the model over the regenerated tables.  Supplementary to the
     property: there is no oracle, a difference is a broken correspondence."""
     name = "detection"
+    supplementary = True
 
     def cases(self, ctx, budget):
         n = {"quick": 1500, "thorough": 20000, "search": 0}[budget]
@@ -614,6 +722,9 @@ def suites():
 
 def extra(ctx, tier):
     """a harness that could not run a case yields no verdict for it: never pass silently"""
+    if (_SUITE.feats or {}).get("url-tables:not-reread(verified-commit tables)"):
+        print("INFO property=C15 supplementary=detection: a transport-selection function is outside the shapes the translator "
+              "recognises; Gen/UrlRules keeps the tables of the verified commit for it (the correspondence run compares model and code either way)")
     for f, n in sorted((_SUITE.feats or {}).items()):
         ctx.dist["feat:" + f] += n   # coverage of branches / kinds, so that gaps are visible
     _SUITE.feats = None
